@@ -1,6 +1,6 @@
 (* extraction of the C13 / C03 executable models; ExtrOcamlBasic only *)
 Require Extraction.
 Require Import ExtrOcamlBasic.
-Require Import Base Overlap Suggestion.
+Require Import Base Overlap Suggestion Rebase.
 Extraction Language OCaml.
-Extraction "../ocaml/gen/c13_model.ml" run_remove_overlaps run_apply.
+Extraction "../ocaml/gen/c13_model.ml" run_remove_overlaps run_apply run_rebase.
